@@ -19,6 +19,24 @@ func OK() Verdict { return Verdict{Status: "ok"} }
 func Viol(clause, sig, format string, a ...any) Verdict {
 	return Verdict{Status: "violation", Clause: clause, Sig: sig, Detail: fmt.Sprintf(format, a...)}
 }
+
+// Skipped: the precondition of this check's oracle failed for a reason that
+// is another property's business (e.g. the workflow did not complete although
+// this check is about audit records). The check stays silent: it only speaks
+// to its own property.
+func Skipped(v Verdict) Verdict {
+	return Verdict{Status: "skipped", Clause: v.Clause, Detail: v.Detail}
+}
+
+// foreign: a violation found by a shared oracle that is not this check's
+// business becomes "skipped"; other statuses pass through.
+func foreign(v Verdict) Verdict {
+	if v.Status == "violation" {
+		return Skipped(v)
+	}
+	return v
+}
+
 func Inconclusive(format string, a ...any) Verdict {
 	return Verdict{Status: "inconclusive", Detail: fmt.Sprintf(format, a...)}
 }
